@@ -126,6 +126,12 @@ func c01Run(cs c01Case) []F {
 }
 
 func c01RunRaw(cs c01Case) (fs []F) {
+	if cs.Kind == "chanlen" {
+		if g, w := dyn.ChannelLength(cs.L, cs.C), (cs.L+cs.C-1)/cs.C; g != w {
+			fs = append(fs, core.Failf("ChannelLength/return", "ChannelLength(%d, %d) = %d, want %d", cs.L, cs.C, g, w))
+		}
+		return
+	}
 	if cs.Kind == "valrw" {
 		return valReadWrite(typeByName(cs.S), typeByName(cs.D), cs.C)
 	}
@@ -148,6 +154,9 @@ func c01RunRaw(cs c01Case) (fs []F) {
 	}()
 	root := dyn.Alloc(bt, al(C, cs.P, cs.P))
 	win := root.Slice(cs.X, cs.X+cs.L)
+	if cs.X == 0 && cs.L == cs.P && cs.R == 0 && (C+cs.P+cs.X)%2 == 1 {
+		win = root // the allocated header itself is the buffer under test; its storage is filled through a window below
+	}
 	_ = hdr(win) // (shape queries between the steps: they are pure, whatever the header remembers)
 	for i := 0; i < cs.R; i++ {
 		win.AppendSample(dyn.Tok(bt, 0))
@@ -156,13 +165,19 @@ func c01RunRaw(cs c01Case) (fs []F) {
 	off, n := C*cs.X, C*cs.L+cs.R
 	// model storage: exact Vals
 	cells := make([]dyn.Val, C*cs.P)
+	// (the storage is filled through the root itself or, every other shape, only through a window over
+	// its whole capacity: whatever a header remembers about its own writes, the storage is what counts)
+	filler := root
+	if (C+cs.P+cs.X)%2 == 1 {
+		filler = root.Slice(0, cs.P)
+	}
 	for i := range cells {
 		if cs.Kind == "read" || cs.Kind == "rstriped" {
 			cells[i] = family(cs.Fam, st, dt, i) // values representable in both
 		} else {
 			cells[i] = dyn.Tok(bt, int64(1+i%19))
 		}
-		root.SetSample(i, cells[i])
+		filler.SetSample(i, cells[i])
 	}
 	h0 := hdr(win)
 	hr0 := hdr(root)
@@ -622,6 +637,23 @@ func init() {
 				}
 			}
 			c.ParallelFor(len(vcases), func(i int) { c.Check(vcases[i], true, c01Run(vcases[i])) })
+			// the frame count every reader and writer returns: ChannelLength(n, c) = ceil(n/c) for every
+			// channel count up to 1100 and every length around every multiple of it up to 70 frames
+			c.ParallelFor(1100, func(k int) {
+				ch := k + 1
+				for f := 0; f <= 70; f++ {
+					for _, n := range []int{ch*f - 1, ch * f, ch*f + 1} {
+						if n < 0 {
+							continue
+						}
+						if g, w := dyn.ChannelLength(n, ch), (n+ch-1)/ch; g != w {
+							c.Fail(c01Case{Kind: "chanlen", C: ch, L: n}, core.Failf("ChannelLength/return", "ChannelLength(%d, %d) = %d, want %d (frames covered, counting a partly covered last one)", n, ch, g, w))
+							return
+						}
+					}
+				}
+				c.Eval(213, 213)
+			})
 			c.Set("special_value_cases", len(vcases))
 			c.Sample(c01Case{Kind: "wstriped", S: "int8", D: "float32", C: 3, P: 3, X: 1, L: 2, Lens: []int{-1, 3, 1}, Fam: 1})
 			c.Sample(c01Case{Kind: "read", S: "uint16", D: "int64", C: 2, P: 3, X: 1, L: 1, R: 1, Lens: []int{5}, Fam: 0})
